@@ -193,6 +193,22 @@ def run(ctx):
                 fh.write(struct.pack(">QHHI", int(k.strip(), 16), enc, 100, 0))
             jobs.append((f, l, "book recommends %s" % m, ["setoption name Polyglot Sample value best", "setoption name Polyglot Book value " + path,
                                                            "position fen " + f, "go depth 2 searchmoves " + " ".join(l)]))
+    # time / clock / node limits on quiescence-explosive positions (many queens en prise): the limit has to be polled inside the capture
+    # search too - a poll only in the main search is reached a handful of times per minute there
+    EXPLOSIVE = ["1QqQqQq1/r6Q/Q6q/q6Q/B2q4/q6Q/k6K/1qQ1QqRb w - - 0 1", "5rk1/q1q2ppp/1q1q4/q1q1Q1Q1/1Q1Q1q1q/4Q1Q1/PPP2Q1Q/1KR5 w - - 0 1",
+                 "k7/8/1r1q1r1q/b1q1n1q1/1Q1N1Q1B/Q1R1Q1R1/8/7K w - - 0 1", "q3k2q/r1q2q1r/1n1bb1n1/3qq3/3QQ3/1N1BB1N1/R1Q2Q1R/Q3K2Q w - - 0 1",
+                 "2qqkqq1/1q1qq1q1/8/3nn3/3NN3/8/1Q1QQ1Q1/2QQKQQ1 w - - 0 1"]
+    ejobs = [(f, lim, ["position fen " + f, "go " + lim]) for f in EXPLOSIVE for lim in ("movetime 100", "wtime 1000 btime 1000", "nodes 20000", "wtime 50 btime 50 movestogo 1")]
+    with concurrent.futures.ThreadPoolExecutor(max_workers=NPROC) as ex:
+        eres = list(ex.map(lambda j: run_script(exe, j[2], go_timeout=30), ejobs))
+    for (f, lim, script), r in zip(ejobs, eres):
+        ngo += 1
+        if not r["bestmoves"]:
+            nviol += 1
+            if nviol <= 6:
+                ctx.violation("UCI: 'go %s' on the capture-explosive position '%s' was not answered within 30 s (a finite limit must end the search on its own)" % (lim, f),
+                              {"session": script, "log": r["log"][-6:], "rc": r["rc"]}, key="c09:explosive:%s:%s" % (f, lim))
+    ctx.notes["limited_searches_on_capture_explosive_positions"] = len(ejobs)
     with concurrent.futures.ThreadPoolExecutor(max_workers=NPROC) as ex:
         ures = list(ex.map(lambda j: run_script(exe, j[3], go_timeout=60), jobs))
     shutil.rmtree(scratch, ignore_errors=True)
